@@ -516,11 +516,39 @@ fn run<F: MathFunction + RenderHints + Clone>(case: &Case, cx: &mut Cx) -> Check
     let a_ref = grid.boundary_faces() as f64 * (2.0 / n as f64).powi(2) * lin * lin / 1.5;
     let mut vals = vec![];
     let mut worst = 0.0f64;
+    // Without a transform (the matrix is w * identity), world and model
+    // coordinates coincide and a vertex with two or more coordinates exactly on
+    // the finest octree lattice is an edge intersection (or a cell vertex
+    // snapped to one): the mesher found it between an inside and an outside
+    // sample h / 15^4 apart on that lattice edge, so the 1-Lipschitz field
+    // cannot exceed that distance there.  (Unclamped cell vertices, finding F9,
+    // are not constrained by this.)
+    let plain = case.xform.is_none();
+    let cells = (1u32 << case.depth) as f32;
+    let on_lattice = |c: f32| {
+        let k = (c + 1.0) * cells / 2.0;
+        k == k.round() && (0.0..=cells).contains(&k)
+    };
     for v in &mesh.vertices {
         flat.eval_xyz(v.x, v.y, v.z, &mut vals);
         let d = (vals[ri].abs() as f64) / (h * lin);
         if d > worst {
             worst = d;
+        }
+        if plain {
+            let k = [v.x, v.y, v.z].iter().filter(|c| on_lattice(**c)).count();
+            if k >= 2 {
+                cx.ev.count("lattice_edge_vertices_checked");
+                ensure!(
+                    d <= 0.02 || !d.is_finite(),
+                    "intersection-vertex-off-surface",
+                    "vertex {:?} lies on an edge of the depth-{} lattice but the field there is {} = {:.3} cells (edge intersections are located to h / 50625)",
+                    v,
+                    case.depth,
+                    vals[ri],
+                    d
+                );
+            }
         }
     }
     cx.ev.max("max_vertex_field_over_h_x1000", (worst * 1000.0) as u64);
